@@ -258,7 +258,7 @@ def run_owner(drv, with_store, via, tmo, lag, dt, idle, first_lag=0, evented_ms=
 
         calls = 0
         client.reopen()
-        for _ in range(first_lag + 2):          # first connection
+        for _ in range(max(lag, first_lag) + 3):          # first connection (the stack opens a socket of its own first)
             advance(dt * TICK)
             owner.serviceAll()
             calls += 1
